@@ -25,11 +25,11 @@ import (
 
 func init() {
 	registry["C10"] = runC10
-	subcmds["gen-commandtable"] = genCommandTable
+	subcmds["gen-commandtable"] = c10GenCommandTable
 }
 
-// genCommandTable dumps pprofCommands (name, hasParam) and the keys of configHelp.
-func genCommandTable(args []string) {
+// c10GenCommandTable dumps pprofCommands (name, hasParam) and the keys of configHelp.
+func c10GenCommandTable(args []string) {
 	var sb strings.Builder
 	sb.WriteString("(* GENERATED from /repo/internal/driver/commands.go (pprofCommands, configHelp) on every run; do not edit. *)\n")
 	sb.WriteString("From Coq Require Import List String.\nImport ListNotations.\nOpen Scope string_scope.\n\n")
@@ -67,6 +67,7 @@ type c10Event struct {
 	cfg      driver.VerifConfig
 	pristine bool
 	hash     string
+	out      string // everything the report produced (kept for diagnostics)
 }
 
 type c10UI struct {
@@ -155,17 +156,17 @@ func c10ErrCode(m string) int {
 	return -1
 }
 
-type memWriter struct {
+type c10MemWriter struct {
 	mu  sync.Mutex
 	buf map[string]*bytes.Buffer
 	ord []string
 }
-type memFile struct {
-	w    *memWriter
+type c10MemFile struct {
+	w    *c10MemWriter
 	name string
 }
 
-func (w *memWriter) Open(name string) (io.WriteCloser, error) {
+func (w *c10MemWriter) Open(name string) (io.WriteCloser, error) {
 	w.mu.Lock()
 	defer w.mu.Unlock()
 	if w.buf == nil {
@@ -173,15 +174,15 @@ func (w *memWriter) Open(name string) (io.WriteCloser, error) {
 	}
 	w.buf[name] = &bytes.Buffer{}
 	w.ord = append(w.ord, name)
-	return &memFile{w, name}, nil
+	return &c10MemFile{w, name}, nil
 }
-func (f *memFile) Write(b []byte) (int, error) {
+func (f *c10MemFile) Write(b []byte) (int, error) {
 	f.w.mu.Lock()
 	defer f.w.mu.Unlock()
 	return f.w.buf[f.name].Write(b)
 }
-func (f *memFile) Close() error { return nil }
-func (w *memWriter) drain() string {
+func (f *c10MemFile) Close() error { return nil }
+func (w *c10MemWriter) drain() string {
 	w.mu.Lock()
 	defer w.mu.Unlock()
 	var sb strings.Builder
@@ -209,7 +210,7 @@ func c10StdoutSince(off int64) string {
 	return string(b)
 }
 
-func shortHash(s string) string {
+func c10ShortHash(s string) string {
 	h := sha256.Sum256([]byte(s))
 	return hex.EncodeToString(h[:8])
 }
@@ -223,7 +224,7 @@ func c10Session(p *profile.Profile, ref string, cfg0 driver.VerifConfig, lines [
 	defer restoreG()
 	driver.VerifSetCurrentConfig(cfg0)
 	ui := &c10UI{lines: lines}
-	mw := &memWriter{}
+	mw := &c10MemWriter{}
 	o := driver.VerifSetDefaults(&plugin.Options{UI: ui, Writer: mw, HTTPTransport: transport.New(nil)})
 	restoreW := driver.VerifWrapReports(func(real func(*profile.Profile, []string, driver.VerifConfig, *plugin.Options) error,
 		pp *profile.Profile, cmd []string, cfg driver.VerifConfig, oo *plugin.Options) error {
@@ -244,7 +245,7 @@ func c10Session(p *profile.Profile, ref string, cfg0 driver.VerifConfig, lines [
 		if err != nil {
 			out += "\x00err:" + err.Error()
 		}
-		ui.add(c10Event{kind: "r", cmd: append([]string{}, cmd...), cfg: cfg, pristine: pristine, hash: shortHash(out)})
+		ui.add(c10Event{kind: "r", cmd: append([]string{}, cmd...), cfg: cfg, pristine: pristine, hash: c10ShortHash(out), out: out})
 		return err
 	})
 	defer restoreW()
@@ -374,7 +375,7 @@ func c10Types(p *profile.Profile) []string {
 func c10EventTerm(e c10Event, same bool) Term {
 	switch e.kind {
 	case "r":
-		return L(S("r"), Ss(e.cmd), cfgTerm(e.cfg), Bool(e.pristine), Bool(same))
+		return L(S("r"), Ss(e.cmd), c19CfgTerm(e.cfg), Bool(e.pristine), Bool(same))
 	case "e":
 		return L(S("e"), ZI(e.code))
 	}
@@ -397,15 +398,15 @@ func runC10(c *Ctx) {
 	c10Stdout, os.Stdout = f, f
 	defer func() { os.Stdout = realStdout; f.Close(); os.Remove(f.Name()); os.RemoveAll(dir) }()
 
-	flaky, reports, leaks := 0, 0, 0
+	var st c10Stats
 	for k := 0; k < c.Budget(500, 3000); k++ {
 		p := c10Profile(c.R)
 		types := c10Types(p)
-		ref := Render(DumpProfile(func() *profile.Profile { return parseBack(p) }()))
+		ref := Render(DumpProfile(func() *profile.Profile { return c10ParseBack(p) }()))
 		p0dump := Render(DumpProfile(p))
 		cfg0 := driver.VerifDefaultConfig()
 		if c.R.P(1, 3) {
-			cfg0 = genConfig(c.R, fields)
+			cfg0 = c19GenConfig(c.R, fields)
 		}
 		var lines []string
 		for i, n := 0, 2+c.R.Intn(c.Budget(10, 30)); i < n; i++ {
@@ -414,76 +415,146 @@ func runC10(c *Ctx) {
 		if c.R.P(1, 10) {
 			lines = append(lines, PickS(c.R, []string{"exit", "quit", "q"}), "top")
 		}
-		ui := c10Session(p, ref, cfg0, lines)
-		// metamorphic oracle: every report again in a fresh session brought to the same option state
-		var lineT []Term
-		strs := map[string]bool{}
-		collectCfg(strs, cfg0)
-		nt := false
-		for li := 0; li < ui.pos; li++ {
-			before := ui.start
-			if li > 0 {
-				before = ui.after[li-1]
+		inProc := func(before driver.VerifConfig, line string) []string {
+			fr := c10Session(p, ref, before, []string{c10CompactLine(before), line})
+			if len(fr.ev) != 2 {
+				return nil
 			}
-			var evT []Term
-			for ei, e := range ui.ev[li] {
-				same := true
-				if e.kind == "r" {
-					reports++
-					nt = true
-					same = false
-					for attempt := 0; attempt < 60 && !same && (attempt == 0 || c10RetryBudget > 0); attempt++ {
-						if attempt > 0 {
-							c10RetryBudget--
-						}
-						cl := "compact_labels=false"
-						for _, pr := range driver.VerifConfigDump(before) {
-							if pr[0] == "compact_labels" && pr[1] == "true" {
-								cl = "compact_labels=true"
-							}
-						}
-						fr := c10Session(p, ref, before, []string{cl, lines[li]})
-						if len(fr.ev) == 2 && len(fr.ev[1]) > ei && fr.ev[1][ei].kind == "r" && fr.ev[1][ei].hash == e.hash {
-							same = true
-						} else if attempt == 0 {
-							// is the output of this very command stable at all? (C08 is about that, not C10)
-							fr2 := c10Session(p, ref, before, []string{cl, lines[li]})
-							if len(fr.ev) == 2 && len(fr2.ev) == 2 && len(fr.ev[1]) > ei && len(fr2.ev[1]) > ei && fr.ev[1][ei].hash != fr2.ev[1][ei].hash {
-								flaky++
-								same = true
-							}
-						}
-					}
-					if !same || !e.pristine {
-						leaks++
-					}
-				}
-				evT = append(evT, c10EventTerm(e, same))
-			}
-			collectCfg(strs, ui.after[li])
-			lineT = append(lineT, L(L(evT...), cfgTerm(ui.after[li])))
+			return c10ReportHashes(fr.ev[1])
 		}
-		for _, l := range lines {
-			if i := strings.Index(l, "="); i >= 0 {
-				v := l[i+1:]
-				if j := strings.LastIndex(v, "//:"); j >= 0 {
-					v = v[:j]
-				}
-				strs[strings.TrimSpace(v)] = true
+		if k%16 == 5 {
+			// every 16th history is judged against a fresh PROCESS: a process-wide cache inside pprof
+			// would be shared by an in-process "fresh" session
+			var buf bytes.Buffer
+			p.WriteUncompressed(&buf)
+			os.WriteFile("c10sess.pb", buf.Bytes(), 0o644)
+			child := func(before driver.VerifConfig, line string) []string {
+				r := c10RunChild(c10RefJob{Mode: "sess", Prof: "c10sess.pb", Pairs: driver.VerifConfigDump(before), Lines: []string{c10CompactLine(before), line}}, &st)
+				c10LastRefOuts = r.Outs
+				return r.Hashes
 			}
+			c10History(c, "session", p, ref, p0dump, cfg0, lines, child, 6, &st)
+			os.Remove("c10sess.pb")
+			continue
 		}
-		unchanged := Render(DumpProfile(p)) == p0dump
-		in := L(S("sess"), c19PfTable(strs), Ss(types), S(p.DefaultSampleType), cfgTerm(cfg0), Ss(lines))
-		obs := L(cfgTerm(ui.start), L(lineT...), Bool(unchanged))
-		c.Case("session", in, obs, nt, "op:sess")
+		c10History(c, "session", p, ref, p0dump, cfg0, lines, inProc, 60, &st)
 	}
-	c.Extra["reports"] = reports
-	c.Extra["nondeterministic_outputs_skipped"] = flaky
-	c.Extra["leaks_seen"] = leaks
-	runC10Web(c, fields)
+	c10RunSrc(c, fields, &st)
+	c.Extra["reports"] = st.reports
+	c.Extra["nondeterministic_outputs_skipped"] = st.flaky
+	c.Extra["leaks_seen"] = st.leaks
+	c10RunWeb(c, fields)
 }
 
-func parseBack(p *profile.Profile) *profile.Profile {
+type c10Stats struct{ flaky, reports, leaks, childRefs, srcA, srcB, srcNone int }
+
+// c10RefFn regenerates the reports of one line in a FRESH session brought to the option state
+// `before`; it returns one hash per event of the line ("" for events that are not reports).
+type c10RefFn func(before driver.VerifConfig, line string) []string
+
+// c10LastRefOuts holds the full outputs behind the hashes the last c10RefFn call returned.
+var c10LastRefOuts []string
+
+func c10CompactLine(before driver.VerifConfig) string {
+	for _, pr := range driver.VerifConfigDump(before) {
+		if pr[0] == "compact_labels" && pr[1] == "true" {
+			return "compact_labels=true"
+		}
+	}
+	return "compact_labels=false"
+}
+
+func c10ReportHashes(evs []c10Event) []string {
+	var hs []string
+	c10LastRefOuts = nil
+	for _, e := range evs {
+		if e.kind == "r" {
+			hs = append(hs, e.hash)
+		} else {
+			hs = append(hs, "")
+		}
+		c10LastRefOuts = append(c10LastRefOuts, e.out)
+	}
+	return hs
+}
+
+// c10History runs one scripted session on the real loop and judges every report with the
+// metamorphic oracle (refFn); it emits the "sess" case.
+func c10History(c *Ctx, gen string, p *profile.Profile, ref, p0dump string, cfg0 driver.VerifConfig, lines []string,
+	refFn c10RefFn, maxRetry int, st *c10Stats) {
+	types := c10Types(p)
+	ui := c10Session(p, ref, cfg0, lines)
+	var lineT []Term
+	strs := map[string]bool{}
+	c19CollectCfg(strs, cfg0)
+	nt := false
+	for li := 0; li < ui.pos; li++ {
+		before := ui.start
+		if li > 0 {
+			before = ui.after[li-1]
+		}
+		var evT []Term
+		var first []string
+		for ei, e := range ui.ev[li] {
+			same := true
+			if e.kind == "r" {
+				st.reports++
+				nt = true
+				if gen == "session-src" && (e.cmd[0] == "list" || e.cmd[0] == "weblist") {
+					switch {
+					case strings.Contains(e.out, "/* A "):
+						st.srcA++
+					case strings.Contains(e.out, "/* B "):
+						st.srcB++
+					default:
+						st.srcNone++
+					}
+				}
+				if first == nil {
+					first = refFn(before, lines[li])
+				}
+				same = ei < len(first) && first[ei] == e.hash
+				for attempt := 0; attempt < maxRetry && !same && c10RetryBudget > 0; attempt++ {
+					// an unstable output (map order; C08's subject) matches eventually or differs between
+					// two fresh runs; a leak does neither
+					c10RetryBudget--
+					again := refFn(before, lines[li])
+					if ei < len(again) && again[ei] == e.hash {
+						st.flaky++
+						same = true
+					} else if ei < len(again) && ei < len(first) && again[ei] != first[ei] {
+						st.flaky++
+						same = true
+					}
+				}
+				if !same || !e.pristine {
+					st.leaks++
+					if _, have := c.Extra["session_mismatch_sample"]; !have && ei < len(c10LastRefOuts) {
+						c.Extra["session_mismatch_sample"] = lines[li] + ": " + c10FirstDiff(e.out, c10LastRefOuts[ei])
+					}
+				}
+			}
+			evT = append(evT, c10EventTerm(e, same))
+		}
+		c19CollectCfg(strs, ui.after[li])
+		lineT = append(lineT, L(L(evT...), c19CfgTerm(ui.after[li])))
+	}
+	for _, l := range lines {
+		if i := strings.Index(l, "="); i >= 0 {
+			v := l[i+1:]
+			if j := strings.LastIndex(v, "//:"); j >= 0 {
+				v = v[:j]
+			}
+			strs[strings.TrimSpace(v)] = true
+		}
+	}
+	unchanged := Render(DumpProfile(p)) == p0dump
+	in := L(S("sess"), c19PfTable(strs), Ss(types), S(p.DefaultSampleType), c19CfgTerm(cfg0), Ss(lines))
+	obs := L(c19CfgTerm(ui.start), L(lineT...), Bool(unchanged))
+	c.Case(gen, in, obs, nt, "op:sess")
+}
+
+func c10ParseBack(p *profile.Profile) *profile.Profile {
 	var buf bytes.Buffer
 	p.WriteUncompressed(&buf)
 	q, err := profile.ParseUncompressed(buf.Bytes())
@@ -517,19 +588,19 @@ func c10Do3(h map[string]http.Handler, rq c10Req) (int, string, string) {
 		}()
 		h[rq.path].ServeHTTP(w, req)
 	}()
-	return w.Code, shortHash(fmt.Sprint(w.Code) + w.Body.String()), w.Body.String()
+	return w.Code, c10ShortHash(fmt.Sprint(w.Code) + w.Body.String()), w.Body.String()
 }
 
-type nullUI struct{}
+type c10NullUI struct{}
 
-func (nullUI) ReadLine(string) (string, error)     { return "", io.EOF }
-func (nullUI) Print(...interface{})                {}
-func (nullUI) PrintErr(...interface{})             {}
-func (nullUI) IsTerminal() bool                    { return false }
-func (nullUI) WantBrowser() bool                   { return false }
-func (nullUI) SetAutoComplete(func(string) string) {}
+func (c10NullUI) ReadLine(string) (string, error)     { return "", io.EOF }
+func (c10NullUI) Print(...interface{})                {}
+func (c10NullUI) PrintErr(...interface{})             {}
+func (c10NullUI) IsTerminal() bool                    { return false }
+func (c10NullUI) WantBrowser() bool                   { return false }
+func (c10NullUI) SetAutoComplete(func(string) string) {}
 
-func runC10Web(c *Ctx, fields []driver.VerifField) {
+func c10RunWeb(c *Ctx, fields []driver.VerifField) {
 	paths := []string{"/top", "/top", "/peek", "/flamegraph", "/flamegraph", "/", "/download", "/source"}
 	flaky := 0
 	for k := 0; k < c.Budget(150, 1500); k++ {
@@ -537,18 +608,18 @@ func runC10Web(c *Ctx, fields []driver.VerifField) {
 		p0dump := Render(DumpProfile(p))
 		cfg0 := driver.VerifDefaultConfig()
 		if c.R.P(1, 3) {
-			cfg0 = genConfig(c.R, fields)
+			cfg0 = c19GenConfig(c.R, fields)
 		}
 		restoreG := driver.VerifGlobals()
 		driver.VerifSetCurrentConfig(cfg0)
-		o := driver.VerifSetDefaults(&plugin.Options{UI: nullUI{}, Writer: &memWriter{}, HTTPTransport: transport.New(nil)})
+		o := driver.VerifSetDefaults(&plugin.Options{UI: c10NullUI{}, Writer: &c10MemWriter{}, HTTPTransport: transport.New(nil)})
 		var reqs []c10Req
 		for i, n := 0, 2+c.R.Intn(6); i < n; i++ {
 			q := url.Values{}
 			switch c.R.Intn(4) {
 			case 0:
 			case 1:
-				q = genQuery(c.R, fields, 1+c.R.Intn(3))
+				q = c19GenQuery(c.R, fields, 1+c.R.Intn(3))
 			default: // mutating, valid options
 				for _, kv := range [][2]string{{"f", "main|foo"}, {"i", "bar"}, {"h", "f"}, {"s", "main"}, {"sf", "foo"}, {"tf", "k=v"}, {"ti", "w"},
 					{"g", "lines"}, {"g", "files"}, {"n", "2"}, {"nf", "0.3"}, {"calltree", "t"}, {"rel", "t"}, {"prunefrom", "bar"},
@@ -599,12 +670,12 @@ func runC10Web(c *Ctx, fields []driver.VerifField) {
 				codes[i], hashes[i], bodies[i] = c10Do3(h, reqs[i])
 			}
 		}
-		cfgSame := Render(cfgTerm(driver.VerifCurrentConfig())) == Render(cfgTerm(cfg0))
+		cfgSame := Render(c19CfgTerm(driver.VerifCurrentConfig())) == Render(c19CfgTerm(cfg0))
 		var rT, oT []Term
 		strs := map[string]bool{}
-		collectCfg(strs, cfg0)
+		c19CollectCfg(strs, cfg0)
 		for i, rq := range reqs {
-			collect(strs, rq.q)
+			c19Collect(strs, rq.q)
 			fc, fh := fresh(rq)
 			same := fc == codes[i] && fh == hashes[i]
 			firstFresh := lastFresh
@@ -615,7 +686,7 @@ func runC10Web(c *Ctx, fields []driver.VerifField) {
 					flaky++
 					same = true
 					if _, have := c.Extra["web_unstable_sample"]; !have && !concurrent {
-						c.Extra["web_unstable_sample"] = rq.path + " " + firstDiff(bodies[i], firstFresh)
+						c.Extra["web_unstable_sample"] = rq.path + " " + c10FirstDiff(bodies[i], firstFresh)
 					}
 				}
 			}
@@ -625,22 +696,22 @@ func runC10Web(c *Ctx, fields []driver.VerifField) {
 					flaky++
 					same = true
 				} else if _, have := c.Extra["web_mismatch_sample"]; !have && !concurrent {
-					c.Extra["web_mismatch_sample"] = firstDiff(bodies[i], lastFresh)
+					c.Extra["web_mismatch_sample"] = c10FirstDiff(bodies[i], lastFresh)
 				}
 			}
-			rT = append(rT, L(S(rq.path), valuesTerm(rq.q)))
+			rT = append(rT, L(S(rq.path), c19ValuesTerm(rq.q)))
 			oT = append(oT, L(ZI(codes[i]), Bool(same)))
 		}
 		unchanged := Render(DumpProfile(p)) == p0dump
 		restoreG()
-		in := L(S("web"), c19PfTable(strs), cfgTerm(cfg0), L(rT...), Bool(concurrent))
+		in := L(S("web"), c19PfTable(strs), c19CfgTerm(cfg0), L(rT...), Bool(concurrent))
 		c.Case("web", in, L(L(oT...), Bool(cfgSame), Bool(unchanged)), true, "op:web", fmt.Sprintf("concurrent:%v", concurrent))
 	}
 	c.Extra["web_nondeterministic_outputs_skipped"] = flaky
 }
 
-// firstDiff shows where two response bodies part (diagnostic copied into the evidence).
-func firstDiff(a, b string) string {
+// c10FirstDiff shows where two response bodies part (diagnostic copied into the evidence).
+func c10FirstDiff(a, b string) string {
 	i := 0
 	for i < len(a) && i < len(b) && a[i] == b[i] {
 		i++
